@@ -336,8 +336,8 @@ func matrixC05(t *testing.T, r *ev.Run) {
 	// a zero revoke-check interval: every use re-checks the key, so a revocation takes effect on the next encrypt
 	// after a later creation stamp has become available
 	matrixC05R(t, r, 0)
-	// the same matrix end to end over the DynamoDB plug-ins (the revocation is an out-of-band update of the item)
-	for _, be := range []string{"dynamodb-v1", "dynamodb-v2"} {
+	// the same matrix end to end over the DynamoDB and SQL plug-ins (the revocation is an out-of-band update of the item / row)
+	for _, be := range []string{"dynamodb-v1", "dynamodb-v2", "sql"} {
 		scriptedBackend = be
 		matrixC05R(t, r, 5*time.Minute)
 		scriptedBackend = "memory"
